@@ -424,6 +424,13 @@ stream_winsort(struct stream *stream, struct ring *r)
 		return -1;
 	}
 
+	/* The events after an OU[ that is never closed stay unsorted */
+	if (st != 'S') {
+		err("stream %s ends inside an unsorted region (missing OU])",
+				stream->relpath);
+		return -1;
+	}
+
 	if (empty_regions > 0)
 		warn("stream %s contains %zd empty sort regions",
 				stream->relpath, empty_regions);
